@@ -25,10 +25,13 @@ def main():
     meta = json.load(open(os.path.join(m, "meta.json")))
     patch = os.path.join(m, "patch.diff")
     demo = os.path.join(m, "demo_test.go")
-    pkg = meta.get("demo_package_dir")
+    pkg = (meta.get("demo_package_dir") or "").split(" ")[0]
+    inplace = False
     if not pkg:
         mm = re.search(r"cp \S*demo_test.go (\S+)/\S+_test.go", meta.get("run_demo", ""))
         pkg = mm.group(1) if mm else None
+    if not pkg and re.search(r"go test [^;&]*\./%s/" % re.escape(mdir), meta.get("run_demo", "")):
+        pkg, inplace = mdir, True     # the demonstration is run where it lies
     if not pkg or not os.path.exists(demo):
         print("cannot find demo package dir / demo_test.go; meta:", json.dumps(meta)[:600])
         return 3
@@ -38,7 +41,9 @@ def main():
     mt = re.search(r"^//go:build (\w+)\s*$", open(demo).read(), re.M)
     tags = ("-tags %s " % mt.group(1)) if mt else ""
     res = {}
-    sh("git checkout -- . && rm -f %s/zz_seed_demo_test.go" % pkg, wt)
+    sh("git checkout -- .", wt)
+    if not inplace:
+        sh("rm -f %s/zz_seed_demo_test.go" % pkg, wt)
     rc, out = sh("git apply %s" % patch, wt)
     if rc != 0:
         print("patch does not apply in its worktree:", out)
@@ -50,7 +55,8 @@ def main():
         res["suite_with_change_passes"] = ("FAIL" not in out) and rc == 0
         if not res["suite_with_change_passes"]:
             res["suite_output"] = out[-800:]
-        shutil.copy(demo, os.path.join(wt, pkg, "zz_seed_demo_test.go"))
+        if not inplace:
+            shutil.copy(demo, os.path.join(wt, pkg, "zz_seed_demo_test.go"))
         rc, out = sh("timeout 300 go test %s-count=1 ./%s/ -run '%s' 2>&1 | tail -15" % (tags, pkg, run), wt)
         res["demo_fails_with_change"] = "FAIL" in out or "panic" in out
         res["demo_output_with_change"] = out[-600:]
@@ -58,7 +64,9 @@ def main():
         sh("git apply -R %s" % patch, wt)
     rc, out = sh("timeout 300 go test %s-count=1 ./%s/ -run '%s' 2>&1 | tail -5" % (tags, pkg, run), wt)
     res["demo_passes_without_change"] = ("ok" in out) and ("FAIL" not in out)
-    sh("rm -f %s/zz_seed_demo_test.go; git checkout -- ." % pkg, wt)
+    if not inplace:
+        sh("rm -f %s/zz_seed_demo_test.go" % pkg, wt)
+    sh("git checkout -- .", wt)
     print("confirmation:", {k: v for k, v in res.items() if not k.endswith("output")})
     confirmed = all(res.get(k) for k in ("build_with_change", "suite_with_change_passes", "demo_fails_with_change", "demo_passes_without_change"))
     if not confirmed:
